@@ -122,13 +122,14 @@ def walk(schema, op):
                     g["in_resolver"] = feat["in_resolver"] or f["is_resolver"] or f["is_requires"]
                     msel = merged_here.get(key(s), s["sel"])
                     g["siblings"] = msel
+                    g["anc"] = feat["anc"] + (id(s),)
                     yield from rec(msel, nt, g, schema.is_abstract(nt))
             else:
                 g = dict(feat)
                 g["in_member_fragment"] = feat["in_member_fragment"] or field_type_abstract
                 yield from rec(s["sel"], s["on"], g, field_type_abstract, merged_here)
 
-    base = {"in_member_fragment": False, "under_nested_list": False, "in_resolver": False, "siblings": op["sel"]}
+    base = {"in_member_fragment": False, "under_nested_list": False, "in_resolver": False, "siblings": op["sel"], "anc": ()}
     yield from rec(op["sel"], root, base, False)
 
 
@@ -142,8 +143,8 @@ def flat_fields(sel):
 
 def rep_types(op):
     out = set()
-    for s in op["sel"]:
-        if s["k"] == "f" and s["name"] == "_entities":
+    for s in flat_fields(op["sel"]):
+        if s["name"] == "_entities":
             for a in s["args"]:
                 if a["name"] == "representations":
                     for r in json.loads(a["val"]):
@@ -151,14 +152,15 @@ def rep_types(op):
     return out
 
 
-def op_features(schema, op):
+def features_of(op, entries):
     feats = set()
-    for s, tn, f in walk(schema, op):
+    mixed = len(rep_types(op)) > 1
+    for s, tn, f in entries:
         if f["is_resolver"] and f["under_nested_list"]:
             feats.add("resolver-under-nested-list")
         if f["is_resolver"] and f["in_member_fragment"]:
             feats.add("resolver-in-member-fragment")
-        if (f["is_requires"] or f["is_resolver"]) and len(rep_types(op)) > 1:
+        if (f["is_requires"] or f["is_resolver"]) and mixed:
             feats.add("mixed-representations")
         if f["in_resolver"] and s["alias"] and any(x["name"] == s["name"] and not x["alias"] for x in flat_fields(f["siblings"])):
             feats.add("aliased-duplicate-in-resolver-selection")
@@ -167,46 +169,45 @@ def op_features(schema, op):
     return feats
 
 
-FEATURE_PRIORITY = ("resolver-under-nested-list", "mixed-representations", "resolver-in-member-fragment", "nested-resolver")
+def op_features(schema, op):
+    return features_of(op, walk(schema, op))
+
+
+# contexts of findings that cannot be repaired locally come first: an observation that lies in two known contexts is
+# attributed to the one that stays open
+FEATURE_PRIORITY = ("mixed-representations", "resolver-in-member-fragment", "resolver-under-nested-list", "nested-resolver")
+
+
+OPEN_FIRST = ("mixed-representations", "resolver-in-member-fragment", "resolver-under-nested-list",
+              "aliased-duplicate-in-resolver-selection", "nested-resolver")
 
 
 def err_context(schema, op, err):
-    """classify one TLC error record {c:[root,type,field], why} for the finding key (see design.d/C20.md)"""
-    feats = op_features(schema, op)
-    _, tn, fn = err["c"]
+    """classify one TLC error record {c:[root field, parent type, field], why} for the finding key: which known defect
+    context (if any) does the reported coordinate lie in?  Only the part of the operation at / below the coordinate
+    counts, so that an unrelated known context elsewhere in the operation cannot absorb the error."""
+    root, tn, fn = err["c"]
     why = err["why"]
-    if why == "error-response":
-        return next((k for k in FEATURE_PRIORITY if k in feats), "plain")
-    here = []
-    for s, ptn, f in walk(schema, op):
-        if s["name"] == fn and (ptn == tn or tn in ("Query", "Mutation")):
-            here.append((s, ptn, f))
-    # errors reported at an abstract / entity field are about the keys of its children
-    if why in ("keys-match-no-possible-type", "typename-missing") or fn == "_entities":
-        if fn == "_entities" and "mixed-representations" in feats:
-            return "mixed-representations"
-        if "resolver-under-nested-list" in feats:
-            return "resolver-under-nested-list"
-        if "resolver-in-member-fragment" in feats:
-            return "resolver-in-member-fragment"
-        if "aliased-duplicate-in-resolver-selection" in feats:
-            return "aliased-duplicate-in-resolver-selection"
-        return "plain"
-    for s, ptn, f in here:
-        if f["is_resolver"] and f["under_nested_list"]:
-            return "resolver-under-nested-list"
-    for s, ptn, f in here:
-        if f["is_resolver"] and f["in_member_fragment"]:
-            return "resolver-in-member-fragment"
-    if why == "missing-key" and "aliased-duplicate-in-resolver-selection" in feats:
-        for s, ptn, f in here:
-            if f["in_resolver"]:
-                return "aliased-duplicate-in-resolver-selection"
-    if tn in rep_types(op) and "mixed-representations" in feats:
-        return "mixed-representations"
-    if "resolver-under-nested-list" in feats and any(f["under_nested_list"] for _, _, f in here):
-        return "resolver-under-nested-list"
-    return "plain"
+    entries = list(walk(schema, op))
+    if why == "error-response" or not root:
+        return next((k for k in FEATURE_PRIORITY if k in features_of(op, entries)), "plain")
+    # the selections of the coordinate: field fn with parent type tn below root field `root`
+    roots = {id(s) for s, ptn, f in entries if not f["anc"] and s["name"] == root}
+    here = [(s, ptn, f) for s, ptn, f in entries
+            if s["name"] == fn and (ptn == tn or tn in ("Query", "Mutation")) and (id(s) in roots or (f["anc"] and f["anc"][0] in roots))]
+    here_ids = {id(s) for s, _, _ in here}
+    below = [e for e in entries if here_ids & set(e[2]["anc"])]
+    if not here:
+        # the reported key is not a selection of that type (an extra key): everything below the root field counts
+        here = [e for e in entries if id(e[0]) in roots]
+        below = [e for e in entries if e[2]["anc"] and e[2]["anc"][0] in roots]
+    feats = features_of(op, here + below)
+    # a key missing / extra in an object: the siblings (same parent selection) decide as well
+    if why in ("missing-key", "extra-key"):
+        parents = {f["anc"][-1] for _, _, f in here if f["anc"]}
+        sibs = [e for e in entries if e[2]["anc"] and e[2]["anc"][-1] in parents]
+        feats |= features_of(op, [e for e in sibs if e[0]["name"] == fn])
+    return next((k for k in OPEN_FIRST if k in feats), "plain")
 
 
 ERR_CLASSES = [
@@ -251,7 +252,8 @@ ENT_FED_P = [{"type": "Product", "field": "", "sel": "id"}]
 
 
 def probes():
-    """hand-written operations that pin the known findings (same driver, same TLC relations)"""
+    """hand-written operations that pin known findings (same driver, same TLC relations).  Every one is a VALID operation
+    (gqlparser accepts it) in the form the planner hands over (no un-normalized constructs)."""
     ent = lambda sel, alias="": F("_entities", sel, alias=alias, args=[A("representations", "[_Any!]!", ENT_REPS_P, "representations")])
     return [
         # (tag, lane, base op, variant op or None)
@@ -265,6 +267,16 @@ def probes():
         ("entities-implicit-typename", "raw",
          OP([ent([I("Product", [F("__typename"), F("id")])])], fed=ENT_FED_P),
          OP([ent([I("Product", [F("id")])])], fed=ENT_FED_P)),
+    ]
+
+
+def note_probes():
+    """NOT verdict cases.  Valid GraphQL, but in a form the datasource is never driven with: the engine's planner
+    normalizes the upstream operation (graphql_datasource.printOperation: fragment spreads inlined, fragments on the
+    enclosing type flattened, same-key selections merged; minification - which would introduce named fragments - is
+    disabled for gRPC).  The same operations are answered correctly in the norm lane.  What the datasource does with the
+    raw text is only recorded as a note in the evidence file."""
+    return [
         ("unnormalized-same-key-duplicate", "raw",
          OP([F("nestedType", [F("b", [F("id"), F("name")])])]),
          OP([F("nestedType", [F("b", [F("id")]), F("b", [F("name")])])])),
@@ -333,9 +345,9 @@ def cases_of(groups, seed, prefix):
     return cases
 
 
-def probe_cases(seed):
+def probe_cases(seed, plist=None):
     cases = []
-    for tag, lane, base, var in probes():
+    for tag, lane, base, var in (plist if plist is not None else probes()):
         cases.append({"id": "probe-%s-b" % tag, "group": "probe-" + tag, "role": "base", "lane": lane, "seed": seed, "op": base,
                       "steps": [], "probe": tag})
         if var is not None:
@@ -392,8 +404,9 @@ CHUNK = 12000
 class Batch:
     """one run of the pipeline steps 3-5 over a stream of cases (constant memory)"""
 
-    def __init__(self, ctx, schema, binary, sdl_file, name):
+    def __init__(self, ctx, schema, binary, sdl_file, name, notes_only=False):
         self.ctx, self.schema, self.binary, self.sdl_file, self.name = ctx, schema, binary, sdl_file, name
+        self.notes_only = notes_only  # observations are recorded as notes, never as a verdict
         self.cases = Store(ctx.path(name + ".cases.ndjson"))
         self.obs = Store(ctx.path(name + ".obs.ndjson"))
         self.n = 0
@@ -468,13 +481,18 @@ class Batch:
     def go_side(self, c, o):
         """observations that need no oracle"""
         ctx, schema = self.ctx, self.schema
+        if self.notes_only:
+            if o["stage"] != "invalid":
+                ctx.notes.append("note (no verdict) %s: %s %s for %s" % (c.get("probe"), o["stage"], o["err"][:120], o["text"][:200]))
+                return
         if o["stage"] == "invalid":
             raise lib.Inconclusive("generator produced an operation gqlparser rejects (%s): %s" % (o["err"][:200], o["text"][:300]))
         if o["stage"] == "panic":
-            msg = re.sub(r"0x[0-9a-f]+", "0x?", o["err"].splitlines()[0])[:120]
+            # protobuf-go deliberately varies "proto: " / "proto:\u00a0" between binaries
+            msg = re.sub(r"0x[0-9a-f]+", "0x?", o["err"].splitlines()[0].replace("\u00a0", " "))[:120]
             feats = op_features(schema, c["op"])
             cx = next((k for k in FEATURE_PRIORITY if k in feats), "plain")
-            key = "probe:%s:panic" % c["probe"] if c.get("probe") else "%s:panic:%s:%s" % (cx, msg, roots_of(c["op"]))
+            key = "probe:%s:panic" % c["probe"] if c.get("probe") else "panic:%s:%s:%s" % (msg, cx, roots_of(c["op"]))
             ctx.violation(key, "panic in the gRPC datasource (%s) for operation %s" % (msg, o["text"][:300]), replay_obj(c, o))
             return
         # parse / normalize / plan / load error for an operation over covered fields
@@ -526,6 +544,10 @@ class Batch:
                     if key in seen:
                         continue
                     seen.add(key)
+                    if self.notes_only:
+                        ctx.notes.append("note (no verdict) %s: raw lane, %s %s at %s.%s for %s -> %s" % (
+                            c.get("probe"), rel, e["why"], e["c"][1], e["c"][2], o["text"][:200], (o["raw"] or "")[:200]))
+                        continue
                     what = "%s: %s at %s.%s (root field %s) — lane %s, steps %s; operation: %s; answer: %s" % (
                         {"shape": "answer does not have the shape of the selection", "self": "one position selected twice carries two values",
                          "agree": "a position common to base and reformulation changed its value"}[rel],
@@ -575,7 +597,8 @@ def own_findings(ctx):
     known = ctx.known()
     have = {(k.get("property"), k.get("key")) for k in known}
     try:
-        with open(os.path.join(lib.VERIF, "findings.d", "C20.json")) as f:
+        # VERIF_C20_FINDINGS: another fragment (findings.d/C20.json.after-fix when checking a tree with the fixes applied)
+        with open(os.environ.get("VERIF_C20_FINDINGS") or os.path.join(lib.VERIF, "findings.d", "C20.json")) as f:
             for k in json.load(f):
                 if (k.get("property"), k.get("key")) not in have:
                     known.append(k)
@@ -625,6 +648,9 @@ def run(ctx):
     pr = Batch(ctx, schema, binary, sdl_file, "probes")
     pr.write_cases(probe_cases(ctx.seed))
     pr.run()
+    nt = Batch(ctx, schema, binary, sdl_file, "notes", notes_only=True)
+    nt.write_cases(probe_cases(ctx.seed, note_probes()))
+    nt.run()
     ctx.log("driver stages: %s; probes: %s" % (dict(gen.stages), dict(pr.stages)))
     ctx.log("trace validation: %d observations accepted, %d with errors; probes %d/%d" % (gen.accepted, gen.bad, pr.accepted, pr.bad))
     ok, bad, pok, pbad = gen.accepted, gen.bad, pr.accepted, pr.bad
